@@ -1,9 +1,10 @@
 (* Entry point of the executable model: one case (a [val]) in, one
    observation (a [val]) out.  The same function is extracted to OCaml
    (vv_eval) and re-evaluated on samples inside Coq by vm_compute. *)
-From VV Require Import Base.Bits Base.Rt Base.Val Gen.GenConsts Gen.GenLayout Gen.GenFns Spec.ValidityDec.
-Open Scope N_scope.
+From VV Require Import Base.Bits Base.Rt Base.Val Gen.GenConsts Gen.GenLayout Gen.GenFns Spec.ValidityDec Model.Transport Model.BeServer.
 Open Scope string_scope.
+Open Scope list_scope.
+Open Scope N_scope.
 
 (* family "valid": [VS "valid"; VS type; VH bytes]  ->  "true"/"false" *)
 Definition run_valid (args : list val) : val :=
@@ -30,11 +31,73 @@ Definition run_valid_spec (args : list val) : val :=
   | _ => verror "args"
   end.
 
+(* ---- family "be": the backend request server fed a scripted stream ----
+   args: [VL [VN features; VN pfeatures]; VL outcomes; VL [VL [VH bytes; VL fds] ...]]
+   obs : VL [VL results; VL calls; VL [VL [VH bytes; VL fds] ...]; VN leaked] *)
+Definition verr_name (e : verr) : string :=
+  match e with
+  | EInvalidParam => "InvalidParam" | EInvalidOperation => "InvalidOperation"
+  | EInactiveFeature _ => "InactiveFeature" | EInactiveOperation _ => "InactiveOperation"
+  | EInvalidMessage => "InvalidMessage" | EPartialMessage => "PartialMessage"
+  | EDisconnected => "Disconnected" | EOversizedMsg => "OversizedMsg" | EIncorrectFds => "IncorrectFds"
+  | ESocketConnect => "SocketConnect" | ESocketError => "SocketError" | ESocketBroken => "SocketBroken"
+  | ESocketRetry => "SocketRetry" | EBackendInternal => "BackendInternalError"
+  | EFrontendInternal => "FrontendInternalError" | EFeatureMismatch => "FeatureMismatch"
+  | EReqHandler => "ReqHandlerError" | EMemFdCreate => "MemFdCreateError"
+  | EFileTruncate => "FileTruncateError" | EMemFdSeal => "MemFdSealError"
+  end.
+Definition res_val {A} (r : rresult A) : val :=
+  match r with ROk _ => VS "ok" | RErr e => VS (verr_name e) end.
+Definition stops_loop (r : rresult unit) : bool :=
+  match r with
+  | RErr EDisconnected | RErr EPartialMessage | RErr ESocketBroken | RErr ESocketError => true
+  | _ => false
+  end.
+Definition tx_val (t : tx) : val := VL [vbytes (fst t); VL (map VN (snd t))].
+
+Fixpoint be_loop (fuel : nat) (cfg : be_cfg) (s : be_state) (outs : list N) (q : stream)
+         (results calls sent : list val) : list val * list val * list val :=
+  match fuel with
+  | O => (results ++ [VS "model-fuel"], calls, sent)
+  | S f =>
+      let o := hd 0 outs in
+      let '(s', out, q') := handle_request cfg s o q in
+      let results' := results ++ [res_val (o_result out)] in
+      let calls' := calls ++ o_calls out in
+      let sent' := sent ++ map tx_val (o_sent out) in
+      if stops_loop (o_result out) then (results', calls', sent')
+      else be_loop f cfg s' (tl outs) q' results' calls' sent'
+  end.
+
+Definition parse_seg (v : val) : option seg :=
+  match v with
+  | VL [VH h; fds] =>
+      match val_NL fds with
+      | Some l => Some {| seg_bytes := hex_bytes h; seg_fds := l |}
+      | None => None
+      end
+  | _ => None
+  end.
+
+Definition run_be (args : list val) : val :=
+  match args with
+  | [VL [VN f; VN pf]; outs; VL msgs] =>
+      match val_NL outs, all_some (map parse_seg msgs) with
+      | Some os, Some q =>
+          let '(r, c, s) := be_loop (List.length q + stream_len q + 2) {| cfg_features := f; cfg_pfeatures := pf |}
+                                    be_init os q [] [] [] in
+          VL [VL r; VL c; VL s; VN 0]
+      | _, _ => verror "args"
+      end
+  | _ => verror "args"
+  end.
+
 Definition run (c : val) : val :=
   match c with
   | VL (VS fam :: args) =>
       if String.eqb fam "valid" then run_valid args
       else if String.eqb fam "valid-spec" then run_valid_spec args
+      else if String.eqb fam "be" then run_be args
       else verror "family"
   | _ => verror "case"
   end.
